@@ -68,6 +68,14 @@ pub mod other_types {
     fn sanp(p: P) -> P { P { x: p.x ^ unsafe { K }, y: p.y } }
     fn dflt() -> P { P { x: unsafe { DX }, y: 7 } }
     #[nutype(sanitize(with = sanp), validate(predicate = okp), derive(Debug, TryFrom, Default), default = dflt())] pub struct NV(P);
+    // custom validation (with/error), NO sanitizer
+    #[derive(Debug, Clone, PartialEq)] pub struct CErr(pub i32);
+    fn vcustom(p: &P) -> Result<(), CErr> { if okp(p) { Ok(()) } else { Err(CErr(p.x)) } }
+    #[nutype(validate(with = vcustom, error = CErr), derive(Debug, TryFrom, Default), default = dflt())] pub struct NC(P);
+    static mut DI: u64 = 0; static mut MI: u64 = 0;
+    fn dflt_i() -> u64 { unsafe { DI } }
+    fn vint(x: &u64) -> Result<(), CErr> { if (*x & unsafe { MI }) != 0 { Ok(()) } else { Err(CErr(1)) } }
+    #[nutype(validate(with = vint, error = CErr), derive(Debug, TryFrom, Default), default = dflt_i())] pub struct NCI(u64);
     #[nutype(sanitize(with = sanp), derive(Debug, From, Default), default = dflt())] pub struct NF(P);
     #[nutype(sanitize(with = sanp), derive(Debug, TryFrom))] pub struct NT(P);
     #[nutype(sanitize(with = |t: [T; 2]| t), validate(predicate = |t: &[T; 2]| t[0] != t[1]), derive(Debug, TryFrom))] pub struct GV<T: PartialEq>([T; 2]);
@@ -95,6 +103,32 @@ pub mod other_types {
         kani::assume(okp(&s));
         kani::cover!(true);
         assert!(<NV as Default>::default().into_inner() == s, "Default differs from try_new(default expr)");
+    }
+    #[kani::proof]
+    pub fn c03_custom_validation_conversions_and_default_ok() {
+        unsafe { MASK = kani::any(); DX = kani::any(); DI = kani::any(); MI = kani::any(); }
+        let raw = anyp();
+        match <NC as TryFrom<P>>::try_from(raw) { Ok(v) => { assert!(okp(&raw)); assert!(v.into_inner() == raw); } Err(e) => { assert!(!okp(&raw)); assert!(e == CErr(raw.x), "custom error not returned unchanged by TryFrom"); } }
+        let x: u64 = kani::any();
+        match <NCI as TryFrom<u64>>::try_from(x) { Ok(v) => { assert!(vint(&x).is_ok()); assert!(v.into_inner() == x); } Err(_) => assert!(vint(&x).is_err()) }
+        if okp(&dflt()) { kani::cover!(true); assert!(<NC as Default>::default().into_inner() == dflt(), "Default differs from try_new(default expr) under custom validation"); }
+        if vint(&dflt_i()).is_ok() { assert!(<NCI as Default>::default().into_inner() == dflt_i()); }
+    }
+    #[kani::proof]
+    #[kani::should_panic]
+    pub fn c03_custom_validation_default_invalid() {
+        unsafe { MASK = kani::any(); DX = kani::any(); }
+        kani::assume(!okp(&dflt()));
+        let v = <NC as Default>::default();
+        kani::cover!(true, "MARKER default() returned although the default is invalid");
+    }
+    #[kani::proof]
+    #[kani::should_panic]
+    pub fn c03_custom_validation_int_default_invalid() {
+        unsafe { DI = kani::any(); MI = kani::any(); }
+        kani::assume(vint(&dflt_i()).is_err());
+        let v = <NCI as Default>::default();
+        kani::cover!(true, "MARKER default() returned although the default is invalid");
     }
     #[kani::proof]
     #[kani::should_panic]
@@ -170,6 +204,9 @@ def generate(tier, seed):
     src.append(OTHER)
     plan.add(H("c03_other_conversions", "main", {"case": "struct and generic inner types: TryFrom (validated / infallible), From"}))
     plan.add(H("c03_other_default_ok", "main", {"case": "struct inner type: Default with symbolic default expression (valid)"}))
+    plan.add(H("c03_custom_validation_conversions_and_default_ok", "main", {"case": "custom with/error validation without sanitizers: TryFrom and valid Default (struct and u64 inner)"}))
+    plan.add(H("c03_custom_validation_default_invalid", "main", {"case": "custom validation, struct inner: invalid default never returns"}, expect_panic=True, unreachable=["MARKER default() returned"]))
+    plan.add(H("c03_custom_validation_int_default_invalid", "main", {"case": "custom validation, u64 inner: invalid default never returns"}, expect_panic=True, unreachable=["MARKER default() returned"]))
     plan.add(H("c03_other_default_invalid", "main", {"case": "struct inner type: invalid default never returns"}, expect_panic=True, unreachable=["MARKER default() returned"]))
     src.append(strprops.gen_c03(plan, tier, rng))
     plan.source = "\n".join(src)
